@@ -256,3 +256,122 @@ Definition run_rtread (input : val) : val :=
       rt_load hok hdr true w; rt_readonly hdr q file; rt_storage hok hdr q file].
 
 Definition prop_rtread (input obs : val) : val := VT "ok".
+
+(* ---- kind "rthist": several sequential readers of one kind alive at once, interleaved ------------------
+   input  = (kind ropts files sched hoktab hdrtab expect)
+     kind   : 0 root car.CarReader | 1 internal carv1.CarReader | 2 v2 BlockReader
+     files  : (b<file> ...)           one archive per reader
+     sched  : ((n<i> topen) | (n<i> tnext) ...)   reader i is created / asked for its next block
+     expect : ((roots blocks) ...) per reader, or tnone
+   output = ((troots cids) | (tblock cid data) | (terr class) ...), one answer per scheduled operation *)
+From GoCar Require Import ReaderHist.
+
+Definition v_rkind (n : N) : rkind := if N.eqb n 0 then KRoot else if N.eqb n 1 then KCarv1 else KBlock.
+Definition v_rhop (v : val) : rhop := if is_tagf v "open" then HOpen else HNext.
+Definition v_rhans (a : rhans) : val :=
+  match a with
+  | HRoots r => VL [VT "roots"; v_cids r]
+  | HBlock b => VL [VT "block"; VB (fst b); VB (snd b)]
+  | HErr e => VL [VT "err"; v_err e]
+  end.
+Definition v_sched (v : val) : list (nat * rhop) :=
+  map (fun x => (N.to_nat (vN (vnth 0 x)), v_rhop (vnth 1 x))) (vL v).
+
+Definition run_rthist (input : val) : val :=
+  let k := v_rkind (vN (vnth 0 input)) in
+  let o := v_ropts (vnth 1 input) in
+  let hok := hok_lookup (vL (vnth 4 input)) in
+  let hdr := hdr_lookup (vL (vnth 5 input)) in
+  let sts := map (fun f => mkrh (vB f) None) (vL (vnth 2 input)) in
+  VL (map (fun ia => v_rhans (snd ia))
+          (run_multi rhstate rhans rhop (rh_step hok hdr k o) sts (v_sched (vnth 3 input)))).
+
+(* layer B: every reader, taken by itself, answers the roots when opened, then its archive's blocks in
+   order, then io.EOF for every further Next -- whatever the other readers are doing *)
+Definition rh_expected (roots : list bytes) (bs : list block) (ops : list rhop) : list val :=
+  (fix go (ops : list rhop) (rest : list block) (opened : bool) : list val :=
+     match ops with
+     | [] => []
+     | HOpen :: t => VL [VT "roots"; v_cids roots] :: go t bs true
+     | HNext :: t =>
+         match rest with
+         | b :: r => VL [VT "block"; VB (fst b); VB (snd b)] :: go t r opened
+         | [] => VL [VT "err"; VT "eof"] :: go t [] opened
+         end
+     end) ops bs false.
+
+Fixpoint vals_eqb (a b : list val) : bool :=
+  match a, b with
+  | [], [] => true
+  | x :: a', y :: b' => val_eqb x y && vals_eqb a' b'
+  | _, _ => false
+  end.
+
+Definition prop_rthist (input obs : val) : val :=
+  let expect := vnth 6 input in
+  match expect with
+  | VL per =>
+    let sched := v_sched (vnth 3 input) in
+    let tagged := combine (map fst sched) (vL obs) in
+    let bad := existsb (fun ie =>
+                 let i := fst ie in let e := snd ie in
+                 negb (vals_eqb (proj i tagged)
+                                (rh_expected (vcids (vnth 0 e)) (vblocks (vnth 1 e)) (proj i sched))))
+               (combine (seq 0 (length per)) per) in
+    if negb (N.eqb (N.of_nat (length (vL obs))) (N.of_nat (length sched))) then rt_fail "answer-count-mismatch"
+    else if bad then rt_fail "reader-history-differs-from-its-archive" else VT "ok"
+  | _ => VT "ok"
+  end.
+
+(* ---- kind "rtpos": a seekable source positioned at the CAR, behind a preamble --------------------------
+   input  = (entry file ropts hoktab hdrtab expect preamble srckind)
+     srckind : 0 bytes.Reader after Seek | 1 *os.File after Seek | 2 SectionReader over everything after Seek |
+               3 SectionReader starting at the CAR        (the model does not distinguish them)
+     entry : 0 NewBlockReader + Next to the end | 1 ReadVersion | 2 GenerateIndex (default options) + index.WriteTo
+   output = entry 0: as kind scan | entry 1: (tok n<version>) | (terr class) | entry 2: (tok b<index bytes>) | (terr class)
+   model: the reader starts where the source stands -- it sees positioned (preamble ++ file) |preamble| *)
+Definition run_rtpos (input : val) : val :=
+  let entry := vN (vnth 0 input) in
+  (* the source holds the preamble (field 6) followed by the CAR (field 1) and stands at the CAR *)
+  let pre := vB (vnth 6 input) in
+  let file := positioned (List.app pre (vB (vnth 1 input))) (blen pre) in
+  let o := v_ropts (vnth 2 input) in
+  let hok := hok_lookup (vL (vnth 3 input)) in
+  let hdr := hdr_lookup (vL (vnth 4 input)) in
+  if N.eqb entry 0 then
+    match br_read_all hok hdr o file with
+    | Err e => VL [VT "openerr"; v_err e]
+    | Ok (v, roots, s) => VL [VT "ok"; VN v; v_cids roots; v_scan s]
+    end
+  else if N.eqb entry 1 then
+    match read_header hdr (o_maxh o) file with
+    | Ok (_, v, _, _) => VL [VT "ok"; VN v]
+    | Err e => VL [VT "err"; v_err e]
+    end
+  else
+    match gen_flat hdr (mkq false false false default_maxh default_maxs 2048 codec_mh_sorted) 0 file with
+    | Ok (RFlat i) => VL [VT "ok"; VB (idx_write i)]
+    | Ok (RIns _) => VL [VT "err"; v_err EOracleMiss]
+    | Err e => VL [VT "err"; v_err e]
+    end.
+
+(* input field 5: tnone | (tvalid version roots blocks) *)
+Definition prop_rtpos (input obs : val) : val :=
+  let expect := vnth 5 input in
+  if negb (tag_is expect "valid") then VT "ok"
+  else if N.eqb (vN (vnth 0 input)) 0 then
+    if tag_is obs "ok" && N.eqb (vN (vnth 1 obs)) (vN (vnth 1 expect)) &&
+       cids_eq (vcids (vnth 2 obs)) (vcids (vnth 2 expect)) && scan_is (vnth 3 obs) (vblocks (vnth 3 expect))
+    then VT "ok" else rt_fail "positioned-block-reader-read-back-differs"
+  else if N.eqb (vN (vnth 0 input)) 1 then
+    if tag_is obs "ok" && N.eqb (vN (vnth 1 obs)) (vN (vnth 1 expect)) then VT "ok"
+    else rt_fail "positioned-read-version-differs"
+  else
+    (* the index generated from a positioned source is the index of the CAR: the same bytes as generated
+       from the CAR alone (the model's) *)
+    match gen_flat (hdr_lookup (vL (vnth 4 input))) (mkq false false false default_maxh default_maxs 2048 codec_mh_sorted)
+                   0 (vB (vnth 1 input)) with
+    | Ok (RFlat i) => if val_is_bytes (VL [VT "bytes"; vnth 1 obs]) (idx_write i) && tag_is obs "ok" then VT "ok"
+                      else rt_fail "positioned-generate-index-differs"
+    | _ => VT "ok"
+    end.
